@@ -986,7 +986,13 @@ def run(ctx):
                 "(dims/shape length mismatch), fixed regression trees incl. a Sequence holding a real numpy "
                 "structured array, "
                 "foreign-style texts from the harness's own printer (Url/Int/UInt, anonymous dimensions, random "
-                "keyword case, random inter-token whitespace) and a malformed stream (mutated texts); every case "
+                "keyword case, random inter-token whitespace) and a malformed stream (mutated texts); Grids (trees, "
+                "foreign texts, input of the Lean foreign printer) hold their maps in dimension order (25%), reversed "
+                "(15%) or shuffled (60%), with maps that are no dimension of the array inserted anywhere (30%, half of "
+                "them first), a dimension without a map (15%), repeated (15%) or anonymous (15%) dimension names, "
+                "maps named differently from the dimensions (10%), 0-d/2-d maps, no maps; names are also grammar "
+                "words (Grid, Maps, Array:, Int32, dataset ...), names of enclosing containers, of members; empty "
+                "containers at any depth (feature:* tags = measured distribution); every case "
                 "counts as non-trivial; distinct by canonical tree / text")
     ctx.assumptions = ["DDS text is ASCII (DDSResponse encodes with 'ascii'); the model's character classes are the "
                        "ASCII restrictions of \\w, \\d, str.lstrip and re.IGNORECASE",
